@@ -548,7 +548,7 @@ def run(ctx):
     os.environ["C18_SCRATCH"] = ctx.scratch
     corpus = corpus_cases()
     ctx.count("corpus_cases", len(corpus))
-    fp_cases = [c for c in corpus if c.startswith("FP ")] + gen_fp_cases(rng, ctx.pick(260, 2000), big)
+    fp_cases = [c for c in corpus if c.startswith("FP ")] + gen_fp_cases(rng, ctx.pick(260, 1500), big)
     rc = gen_rc_cases(rng, ctx.pick(40, 400), big)
     lap("generate")
     impl = vlib.compile_driver("c18_driver", DRIVER_SRC, libs=("kenlm_util",))
@@ -594,6 +594,11 @@ def run(ctx):
             backend, data, ops = fp_fields(c)
             mt = model_to_impl_tokens(b, ops)
             it = a.split()
+            if backend not in ("M", "R"):
+                # the read() sizes of these backends are the kernel's / the decompressor's: by C18_window_refines_spec only the
+                # *kind* of failure on an exhausted input may depend on them (when at_end_ is discovered); values never do
+                st = oracle_tokens(data, ops)
+                mt = [y if (x != y and s.startswith("END@") and agree(s, x, o) and agree(s, y, o)) else x for x, y, s, o in zip(mt, it, st, ops)] + mt[len(it):]
             if len(mt) != len(it) or not all(tokens_equal(x, y) for x, y in zip(mt, it)):
                 k = next((j for j, (x, y) in enumerate(zip(mt, it)) if not tokens_equal(x, y)), min(len(mt), len(it)))
                 mismatches.append((c, a, b, k))
